@@ -1,4 +1,4 @@
-SPECIFICATION GSpec
+SPECIFICATION DSpec
 CONSTANTS
   Nodes = {"n1"}
   Mode = "path-t"
